@@ -808,6 +808,7 @@ func runC01(r *Run) {
 	runC01OperatorWindow(r)
 	runC01Operator2(r)
 	runC01Operator3(r)
+	runC01Shared(r)
 	// the recorded finding class, explored separately (expected to fail the oracle)
 	r.Cases(900000, r.N(20, 200), 0, func(c *Case, rng *Rng) {
 		watch := c01GenWatch(rng, rng.Range(1, 5))
